@@ -472,6 +472,23 @@ func genHist(prop, out, tier string, rng *rand.Rand, oracle string) {
 			}
 		}
 	}
+	if prop == "C02" || prop == "C11" {
+		// directed: uploads that carry no object name (every protocol), then listings and a normal upload
+		noName := []Req{
+			{Kind: "upload_media", B: "bkt", N: "a", CType: "text/plain", Data: []byte("A"), CP: noConds},
+			{Kind: "upload_multipart", B: "bkt", Up: &UpMeta{Name: "", CType: "text/plain"}, Data: []byte("x"), CP: noConds},
+			{Kind: "resumable_init", B: "bkt", Up: &UpMeta{Name: "", CType: "text/plain"}, CP: noConds},
+			{Kind: "upload_media", B: "bkt", N: "", CType: "text/plain", Data: []byte("y"), CP: noConds},
+			{Kind: "copy", B: "bkt", N: "a", B2: "bkt", N2: ""},
+			{Kind: "list", B: "bkt", CP: noConds},
+			{Kind: "upload_multipart", B: "bkt", Up: &UpMeta{Name: "b", CType: "text/plain"}, Data: []byte("B"), CP: noConds},
+			{Kind: "list", B: "bkt", CP: noConds},
+			{Kind: "get_media", B: "bkt", N: "b"},
+		}
+		for _, mk := range stores() {
+			tasks = append(tasks, Task{mk, "no-name", noName, true})
+		}
+	}
 	RunTasksNT(sink, tasks, histNontrivial)
 	if prop == "C02" {
 		genUrls(sink, tier, rng) // URL forms against the model of the four unanchored patterns
